@@ -17,7 +17,7 @@ EXPECTED = {
     "t_dataclass": "1 + u", "t_dataclass_replace": "3 + u", "t_dict_set_ops": "21*u", "t_enum": "1 + 2*u", "t_functools": "12 + 3*u",
     "t_global_state": "1 + u", "t_itertools": "41*u", "t_lru": "6*u", "t_match": "30*u", "t_math": "18 + 2*u", "t_namedtuple": "5 + u",
     "t_numpy_basic": "83/2 + abs(-u) + max(u, 2*u, 3*u) + 30*u + 32*u^2", "t_slots_property": "19", "t_sorted_minmax": "117/2*u",
-    "t_star_kwargs": "21*u", "t_string_ops": "50*u", "t_try_finally": "111*u", "t_walrus_fstring": "3 + 11*u", "t_while_forelse": "13*u",
+    "t_star_kwargs": "21*u", "t_lazy_interleave": "51*u", "t_string_ops": "50*u", "t_try_finally": "111*u", "t_walrus_fstring": "3 + 11*u", "t_while_forelse": "13*u",
 }
 
 _CHILD = r'''
